@@ -1,6 +1,7 @@
 SPECIFICATION Spec
 CONSTANTS
   HTCase = 1
+  HT <- HTOf
   Inputs = {1}
   Spends = {"s"}
   HasShielded = TRUE
